@@ -310,6 +310,57 @@ func cmdTmpl(args []string) {
 			recs[0].Add(evBody(ev), "Export (history pass)")
 		}
 	}
+	// deferred reading: the reader returned by one export is read only after another export has
+	// happened (a result must not alias memory that a later export reuses)
+	{
+		var hand []int
+		for k := grammar; k < len(ts); k++ {
+			if len(ts[k].Src) < 400 {
+				hand = append(hand, k)
+			}
+		}
+		for n := 0; n+1 < len(hand); n++ {
+			a, b := hand[n], hand[(n*7+3)%len(hand)]
+			ra, rb := reps[n%len(reps)], reps[(n+1)%len(reps)]
+			ta, tb := unescape(ts[a].Src), unescape(ts[b].Src)
+			refOk, refOut := refRender(ra.rep, ta)
+			ev := &tmplEvent{K: "tmpl", Lvl: string(ra.lvl), Lang: ra.lang, S: ra.s, Rep: ra.flat, Segs: []map[string]any{}, Text: asciiSafe(ta),
+				Mode: "string, read after a later export", FailAt: -1, RefOk: refOk, RefOut: refOut, Sent: []string{}}
+			func() {
+				defer func() {
+					if r := recover(); r != nil {
+						ev.Panic = asciiSafe(fmt.Sprint(r))
+					}
+				}()
+				var exA, exB exporter
+				for _, x := range []struct {
+					r  rp
+					ex *exporter
+				}{{ra, &exA}, {rb, &exB}} {
+					switch x.r.lvl {
+					case 'B':
+						*x.ex = x.r.rep.(*report.BaseReport)
+					case 'T':
+						*x.ex = x.r.rep.(*report.TemporalReport)
+					default:
+						*x.ex = x.r.rep.(*report.EnvironmentalReport)
+					}
+				}
+				r1, err := exA.ExportWithString(ta)
+				ev.Ok, ev.Sent = err == nil, sentinelsOf(err)
+				// a later export, through a reader, fully drained
+				if r2, err2 := exB.ExportWith(&chunkReader{data: []byte(tb + " padding padding padding"), size: 7, failAt: -1}); err2 == nil && r2 != nil {
+					io.ReadAll(r2)
+				}
+				ev.GotReader = r1 != nil && !reflect.ValueOf(r1).IsNil()
+				if ev.GotReader {
+					bs, _ := io.ReadAll(r1)
+					ev.Out = asciiSafe(string(bs))
+				}
+			}()
+			recs[0].Add(evBody(ev), "Export, result read after a later export")
+		}
+	}
 	all := NewRecorder()
 	for _, r := range recs {
 		all.Merge(r)
